@@ -146,6 +146,12 @@ void Mode0(Tape& t, Outcome& o) {
   for (int i = 0; i < nq; ++i) {
     Box q = LatBox(t, G, true);
     if (t.flip()) { vec3 sh(0.25 * t.range(-1, 1), 0.25 * t.range(-1, 1), 0.25 * t.range(-1, 1)); q = Box(q.min + sh, q.max + sh); }
+    if (t.chance(40)) {  // half-spaces / slabs: some bounds infinite (as MinGap with an infinite search length produces)
+      const double inf = std::numeric_limits<double>::infinity();
+      int k = t.range(0, 2);
+      if (t.flip()) q.min[k] = -inf; else q.max[k] = inf;
+      if (t.chance(64)) { int k2 = t.range(0, 2); q.min[k2] = -inf; q.max[k2] = inf; }
+    }
     qb.push_back(q);
     qp.push_back(vec3(0.25 * t.range(0, 2 * G + 4), 0.25 * t.range(0, 2 * G + 4), 0.25 * t.range(0, 2 * G + 4)));
   }
